@@ -163,6 +163,9 @@ def gen(rng, zero=False, focus=None, negative=False):
             if 'Zeroize' in derived and zero and chance(rng, 0.3):
                 bodies.append(metas_body([MList('Zeroize', [MPathM('fqs')])]))
             rng.shuffle(bodies)
+            if len(bodies) >= 2 and chance(rng, 0.4):
+                ms = [m for b in bodies for m in b.elems if not isinstance(m, str)]
+                bodies = [metas_body(ms)]            # all options of the field in one attribute, in this order
             fields.append(Field(I(name) if shape == 'named' else i, ftype(rng, tps, zero and derived <= set(ZTRAITS)), bodies))
         vmetas = []
         if kind == 'enum':
